@@ -61,6 +61,13 @@ fn reenter_decodes() {
 }
 
 fn main() {
+    // process-wide lazily built tables (units, zones, the default namespace) are built now, on the
+    // main thread: building them inside a case would advance the per-thread hash-seed counter of
+    // that case's thread only in the first case of a process that needs them. The small-stack
+    // probes, which want them built on their own stack, run in processes that skip this.
+    if std::env::args().nth(1).as_deref() != Some("run-case") || std::env::var("VERIF_COLD").is_err() {
+        reenter_decodes();
+    }
     let _ = simio::REENTER.set(reenter_decodes);
     cli::main_with(engine_for, run_explicit);
 }
